@@ -689,7 +689,7 @@ def gen_cfgs(ctx):
     lbs = [(), (2,), (3, 2), (1,)]
     dbs = [(), (2,), (3, 2), (3, 1), (1, 2)]
     # --- single-output grid
-    reps = 2 if quick else 8
+    reps = 2 if quick else 40
     for _ in range(reps):
         for kind in ("gauss", "fixed", "fixed+learned"):
             for callv in ("none", "same", "own", "mismatch"):
@@ -720,7 +720,7 @@ def gen_cfgs(ctx):
                     cfgs.append({"fam": "single", "kind": kind, "n": n, "lb": list(lb), "db": list(db),
                                  "nb": list(nb), "nstored": nstored, "call": call, "seed": seed()})
     # --- multitask grid
-    for _ in range(3 if quick else 12):
+    for _ in range(3 if quick else 60):
         for (g, tk) in ((True, True), (False, True), (True, False)):
             for il in (True, False):
                 for rsel in ("zero", "mid", "full"):
@@ -733,7 +733,7 @@ def gen_cfgs(ctx):
                     cfgs.append({"fam": "mt", "n": n, "t": t, "rank": rank, "g": g, "tk": tk, "il": il,
                                  "lb": list(lb), "db": list(db), "seed": seed()})
     # --- LikelihoodList
-    for _ in range(2 if quick else 8):
+    for _ in range(2 if quick else 30):
         for method in ("call", "forward"):
             for with_noise in (False, True):
                 for nl in (1, 2, 3):
